@@ -20,7 +20,13 @@ for d in sorted(glob.glob(os.path.join(ROOT, "seeded", "*"))):
     except Exception:
         meta = {}
     checks = []
+    first_missed = []
     for f in sorted(glob.glob(os.path.join(d, "check_*.txt"))):
+        if f.endswith(".before.txt"):
+            # output of the check BEFORE it was strengthened (kept for the record)
+            if not re.search(r"(?m)^VIOLATION ", open(f, errors="replace").read()):
+                first_missed.append(os.path.basename(f)[6:-11])
+            continue
         cid = os.path.basename(f)[6:-4]
         txt = open(f, errors="replace").read()
         nv = len(re.findall(r"(?m)^VIOLATION ", txt))
@@ -40,15 +46,19 @@ for d in sorted(glob.glob(os.path.join(ROOT, "seeded", "*"))):
         "detected_by": [{"check": c, "violations": nv, "first": first} for c, nv, first in checks],
     }
     json.dump(keep, open(os.path.join(d, "meta.json"), "w"), indent=1)
-    rows.append((name, keep["property"], keep["summary"], keep["needs"], checks, caught, ev))
+    keep["first_missed_by"] = first_missed
+    json.dump(keep, open(os.path.join(d, "meta.json"), "w"), indent=1)
+    rows.append((name, keep["property"], keep["summary"], keep["needs"], checks, caught, ev, first_missed))
 with open(os.path.join(ROOT, "seeded", "README.md"), "w") as f:
     f.write("# Seeded changes\n\nEach directory holds a change to enjoy-digital/litex written by an independent sub-agent that saw only the "
             "property text (patch.diff, demo.py, the agent's meta.agent.json), our confirmation on a fresh scratch worktree "
             "(eval.json, demo_*.txt, tests_changed.txt: demo passes unchanged / fails changed, repository tests unchanged) and the "
             "output of the named checks run against the changed tree (`VERIF_REPO=<worktree> ./check <ID> --tier quick`).\n\n"
             "| seed | property | what it needs to manifest | caught by (quick tier) | first clause reported |\n|---|---|---|---|---|\n")
-    for name, prop, summ, needs, checks, caught, ev in rows:
+    for name, prop, summ, needs, checks, caught, ev, fm in rows:
         cb = ", ".join("%s (%d)" % (c, nv) for c, nv, _ in checks if nv) or "**not caught**"
+        if fm:
+            cb += " - first MISSED by %s, caught after strengthening" % ", ".join(fm)
         first = next((fi for _, nv, fi in checks if nv), "")
         f.write("| %s | %s | %s | %s | %s |\n" % (name, prop, str(needs).replace("|", "/").replace("\n", " ")[:260], cb, first.replace("|", "/")))
 print("%d seeds, %d caught" % (len(rows), sum(1 for r in rows if r[5])))
